@@ -114,6 +114,8 @@ type record struct {
 	Origin   string     `json:"origin,omitempty"`
 	Err      string     `json:"err,omitempty"`
 	Clause   string     `json:"clause,omitempty"` // judge only this clause (used to classify a rejection)
+	Kind     string     `json:"kind,omitempty"`   // "reader": a foreign tree read by pagetree (see foreign.go)
+	Dec      []seenPage `json:"dec"`              // page.Decode of the pages the iterator yielded (reader records)
 }
 
 // ---------------------------------------------------------------------------
@@ -130,7 +132,9 @@ func versions() []string { return []string{"1.1", "1.2", "1.3", "1.4", "1.5", "1
 
 func parseVersion(s string) (pdf.Version, error) { return pdf.ParseVersion(s) }
 
-func rect(b [4]float64) *pdf.Rectangle { return &pdf.Rectangle{LLx: b[0], LLy: b[1], URx: b[2], URy: b[3]} }
+func rect(b [4]float64) *pdf.Rectangle {
+	return &pdf.Rectangle{LLx: b[0], LLy: b[1], URx: b[2], URy: b[3]}
+}
 
 func boxArray(b [4]float64) pdf.Array {
 	return pdf.Array{pdf.Integer(b[0]), pdf.Integer(b[1]), pdf.Integer(b[2]), pdf.Integer(b[3])}
@@ -234,7 +238,7 @@ func (r *runner) pageFor(o op) *page.Page {
 // execute runs the program and observes the result.  It never fails: errors
 // and panics of the library end up in the record.
 func execute(c *pcase) (rec record) {
-	rec = record{Fan: Fan, Prog: c.Prog, Nodes: []node{}, Iter: []seenPage{}, GetPage: []gotPage{}, NumPages: -1,
+	rec = record{Fan: Fan, Prog: c.Prog, Nodes: []node{}, Iter: []seenPage{}, GetPage: []gotPage{}, NumPages: -1, Dec: []seenPage{},
 		Fired: []firing{}, Version: c.Version, Origin: c.Origin}
 	data, fired, err := write(c)
 	rec.Fired = append(rec.Fired, fired...)
@@ -351,6 +355,9 @@ func boxID(r pdf.Getter, v pdf.Object, table map[string][4]float64) string {
 	if err != nil {
 		return "?err"
 	}
+	if n == nil {
+		return "-" // a reference to an undefined object is null: no entry (7.3.10)
+	}
 	arr, ok := n.(pdf.Array)
 	if !ok || len(arr) != 4 {
 		return "?" + obj.String(shared.FromPDF(n))
@@ -380,6 +387,9 @@ func rotID(r pdf.Getter, v pdf.Object) string {
 	if err != nil {
 		return "?err"
 	}
+	if n == nil {
+		return "-"
+	}
 	f, ok := number(n)
 	if !ok || f != math.Trunc(f) {
 		return "?" + obj.String(shared.FromPDF(n))
@@ -394,6 +404,9 @@ func resID(r pdf.Getter, v pdf.Object) string {
 	n, err := pdf.Resolve(r, v)
 	if err != nil {
 		return "?err"
+	}
+	if n == nil {
+		return "-"
 	}
 	d, ok := n.(pdf.Dict)
 	if !ok {
@@ -727,6 +740,22 @@ func nonTrivial(c *pcase) bool {
 }
 
 func replay(ctx *core.Ctx, raw json.RawMessage) error {
+	var f struct {
+		Foreign *fcase `json:"foreign"`
+	}
+	if err := json.Unmarshal(raw, &f); err == nil && f.Foreign != nil {
+		rec := observeForeign(f.Foreign)
+		bad, err := judge(ctx, []record{rec}, "", 1)
+		if err != nil {
+			return err
+		}
+		fmt.Printf("  foreign tree: %d nodes, PDF %s, xref %s, objstm %v, update %q; iterator yielded %d pages, NumPages %d; error: %q\n",
+			len(f.Foreign.Nodes), f.Foreign.Version, f.Foreign.XRef, f.Foreign.ObjStm, f.Foreign.Update, len(rec.Iter), rec.NumPages, rec.Err)
+		if len(bad) > 0 {
+			return reportForeign(ctx, foreignOut{f.Foreign, rec, ""})
+		}
+		return nil
+	}
 	var c pcase
 	if err := json.Unmarshal(raw, &c); err != nil {
 		return core.Infra("replay: %v", err)
